@@ -111,4 +111,16 @@ var plans = map[string]plan{
 		Rule: "each case is a history of 2-6 (thorough 2-10) edits over a generated package (a struct with 1-4 fields, a map type, 1-4 derive calls incl. nested ones whose argument type is the result type of another derive call: deriveSort(deriveKeys(m)), deriveUnique(deriveSort(l)), deriveHash(deriveSort(deriveKeys(m))) ..., optionally one call in a _test file): retype / add / remove a field, add / remove / re-target a call, change the type that flows between derive calls, rename the struct type, remove every call; after each edit, optionally, derived.gen.go is replaced by the first k bytes of the previous or of the new output (k at structural cut points: inside the header comment, package clause, import block, a signature, a body, or uniform); then goderive runs ONCE; every step is one evaluation; judged: exit 0, file byte-identical to a from-scratch run on a copy of the same sources (absent in both when no calls remain), final state type-checks; non-trivial = step whose old derived file is stale for a type used by a call, or truncated; distinct by (sources, old file)",
 		Assumptions: []string{"the from-scratch output is the reference (C08 checks that it is unique)"},
 	},
+	"C19": {
+		Quick:    tierPlan{Shards: 8, Checks: 1, Shrink: "30s", Limit: 30 * time.Minute},
+		Thorough: tierPlan{Shards: 16, Checks: 4, Shrink: "3m", Limit: 4 * time.Hour},
+		Rule: "the unmodified generated code of Fmap over a channel, the four channel forms of Join plus the variadic form with 2-4 channels of mixed direction, Pipeline and Dup, built with go1.26.8 -race and run inside testing/synctest bubbles; each case is a configuration (form, 0-4 input channels, 0-3 items each (thorough 0-5), capacities 0-2, optional prefill of buffered inputs) together with a schedule of the external actors: every send, close, hand-over of an inner channel and receive is preceded by a drawn virtual-time delay, so the order of external steps is a drawn total order with ties left to the runtime (GOMAXPROCS 1/2/4/16 per shard); judged: multiset of received items = items sent (per output for Dup), per-input order, f called once per item in order, every output observed closed exactly once and empty afterwards, no deadlock before completion and no goroutine left in the bubble (synctest's durable-blocking detection, not timeouts), no unrecovered panic, no race report; non-trivial = >= 2 channels carrying items or >= 2 items; distinct by configuration+schedule",
+		Assumptions: []string{"interleavings of the helpers' internal goroutines between two external steps are chosen by the Go runtime, not enumerated (see DESIGN.md section 9)", "testing/synctest's definition of durably blocked"},
+	},
+	"C20": {
+		Quick:    tierPlan{Shards: 8, Checks: 1, Shrink: "30s", Limit: 30 * time.Minute},
+		Thorough: tierPlan{Shards: 16, Checks: 4, Shrink: "3m", Limit: 4 * time.Hour},
+		Rule: "the unmodified generated deriveDo for 2, 3 and 4 functions, go1.26.8 -race inside testing/synctest bubbles; each case draws the failing subset, a virtual duration per function (which fixes the completion order, ties left to the runtime) and 0-2 rendezvous pairs (f_i sends to f_j and waits for the answer, so sequential execution cannot finish); judged: Do returns only after every function has returned, every value in its position, nil error iff no function failed and otherwise one of the errors actually returned, no deadlock, no goroutine left blocked in the bubble, no race report; non-trivial = a failing function together with a rendezvous pair, or >= 3 functions; distinct by configuration",
+		Assumptions: []string{"completion orders are driven through virtual time; interleavings inside a tie are the runtime's"},
+	},
 }
